@@ -3,7 +3,7 @@
    [fire_time now d] = max now (floor((now+d)/1000)*1000 rounded down to the generated 200 ms bucket). *)
 From Coq Require Import NArith List Bool.
 From AV Require Import Gen.WsConnConsts Model.WsConn Proofs.WsConnProofs Proofs.WsConnProofs2 Proofs.WsConnProofs3
-  Proofs.WsConnTimers Proofs.WsConnLive Proofs.WsConnResp.
+  Proofs.WsConnTimers Proofs.WsConnLive Proofs.WsConnResp Proofs.WsConnPing.
 Import ListNotations.
 Open Scope N_scope.
 
@@ -21,7 +21,7 @@ Print Assumptions C17_fire_time.
    F = openF c is the fire time of the timer armed by connectionMade, D = t_start + openHandshakeTimeout the nominal
    deadline:  D - 1000 < F <= D.
    A client behind an explicit proxy (c_proxy) starts in PROXY_CONNECTING; the proxy's 2xx answer (EProxyOk, not a
-   qualifying reaction: [no_open_reaction] admits it) moves it to CONNECTING and the SAME timer keeps running.
+   qualifying reaction: [no_open_reaction] lets it through) moves it to CONNECTING and the SAME timer keeps running.
    Silent peer: as long as no handshake (good or bad), no proxy refusal and no TCP drop arrives, the first Tick reaching F aborts the
    connection AT time F, the state is CLOSED for ever and wasOpenHandshakeTimeout stays set; when our drop is
    delivered onClose(False, 1006, <opening handshake timeout>) is reported. *)
@@ -146,22 +146,53 @@ Theorem C17_any_data_frame_restarts : forall c s cont fin,
 Proof. exact any_data_frame_restarts. Qed.
 Print Assumptions C17_any_data_frame_restarts.
 
-(* auto ping, PARTIAL: what is proved is the step itself -- a matching pong while a ping is outstanding (any state in
-   which frames flow, reachable or not) clears the outstanding ping, cancels and clears the timeout handle and arms the
-   next ping with a fire time <= now + autoPingInterval -- together with C17_timeout_fires (an uncancelled timeout call
-   drops by its deadline), C17_armed_by_deadline and the computed timelines below.
-   MISSING for the full C17_responsive_ping / C17_ping_periodic over arbitrary event lists: the uniqueness invariant of
-   the auto-ping calls (at most one of {ping call, ping-timeout call} pending, hPing / hPingTO point to it; the analogue
-   of invariant G for a call that is re-armed after every pong), from which "the cancelled handle was the only
-   ping-timeout call" and "while OPEN with interval > 0 a ping call is pending or a ping is outstanding" follow.  Both
-   are exercised on every grid placement by the correspondence run (families ping, periodic). *)
-Theorem C17_responsive_ping_partial : forall c s q, frames_ready s = true -> pingPending s = Some q ->
+(* ---- auto ping: general invariants over ALL event lists (Proofs/WsConnPing.v) ----
+   [pending_calls k s] counts the pending timer calls of kind k, over every bucket and exact call of the timer list. *)
+Definition pending_calls (k : tkind) (s : cstate) : nat := PK.nk k (timers s).
+
+(* uniqueness: in every reachable state at most ONE call of {auto-ping, auto-ping-timeout} is pending; every pending ping
+   call is the one [hPing] names and every pending timeout call the one [hPingTO] names (so cancelling through the
+   handle cancels all of them); while a ping is outstanding no further ping call is pending *)
+Theorem C17_ping_unique : forall c evs, let s := fst (run c evs) in
+  (pending_calls TAutoPing s + pending_calls TAutoPingTO s <= 1)%nat /\
+  (forall e id, In e (timers s) -> In (TAutoPing, id) (te_calls e) -> hPing s = Some id) /\
+  (forall e id, In e (timers s) -> In (TAutoPingTO, id) (te_calls e) -> hPingTO s = Some id) /\
+  (pingPending s <> None -> pending_calls TAutoPing s = 0%nat).
+Proof. exact ping_unique_run. Qed.
+Print Assumptions C17_ping_unique.
+
+(* the cycle never stalls: in every reachable OPEN state with autoPingInterval > 0 either exactly one ping call is
+   pending and no ping is outstanding, or a ping is outstanding and no ping call is pending; an outstanding ping with
+   autoPingTimeout > 0 has exactly one timeout call pending.  With C17_tick_complete / C17_timeout_fires (a pending
+   call has fired once the clock has passed its fire time) and C17_armed_by_deadline this is the periodic ping. *)
+Theorem C17_ping_periodic : forall c evs, let s := fst (run c evs) in st s = OPEN ->
+  (0 < autoPingInterval c ->
+     (pending_calls TAutoPing s = 1%nat /\ pingPending s = None) \/
+     (pending_calls TAutoPing s = 0%nat /\ pingPending s <> None)) /\
+  (pingPending s <> None -> 0 < autoPingTimeout c -> pending_calls TAutoPingTO s = 1%nat).
+Proof. exact ping_periodic_run. Qed.
+Print Assumptions C17_ping_periodic.
+
+(* a responsive peer is never cut by the ping timeout: after ANY event list, a matching pong for the outstanding ping
+   (frames still flow) leaves NO ping-timeout call pending at all -- the cancelled handle was the only one -- the ping is
+   no longer outstanding, and in OPEN with interval > 0 exactly one next ping is armed, fire time <= now + interval *)
+Theorem C17_responsive_ping : forall c evs q, let s := fst (run c evs) in
+  frames_ready s = true -> pingPending s = Some q ->
+  let s' := fst (run c (evs ++ [EPeerPong true])) in
+  pingPending s' = None /\ hPingTO s' = None /\ pending_calls TAutoPingTO s' = 0%nat /\ st s' = st s /\
+  (0 < autoPingInterval c -> st s = OPEN ->
+     pending_calls TAutoPing s' = 1%nat /\ pendLe TAutoPing (now s + autoPingInterval c) (timers s')).
+Proof. exact responsive_ping_run. Qed.
+Print Assumptions C17_responsive_ping.
+
+(* the step itself, for any state in which frames flow (reachable or not) *)
+Theorem C17_responsive_ping_step : forall c s q, frames_ready s = true -> pingPending s = Some q ->
   TI1 (timers s) (now s) ->
   let s' := fst (step c s (EPeerPong true)) in
   pingPending s' = None /\ hPingTO s' = None /\ st s' = st s /\
   (0 < autoPingInterval c -> pendLe TAutoPing (now s + autoPingInterval c) (timers s')).
 Proof. exact responsive_ping_step. Qed.
-Print Assumptions C17_responsive_ping_partial.
+Print Assumptions C17_responsive_ping_step.
 
 (* ---- after CLOSED ----
    "no timer has any effect after the connection is closed": advancing the clock produces no output whatsoever,
